@@ -49,3 +49,8 @@ package types
 //@ trusted
 //@ modifies l
 //@ ensures l.TunnelID == old(l.TunnelID) && l.LastInterval == old(l.LastInterval) && l.Prices == mergedPrices(old(l.Prices), newPrices)
+
+// the signal ids of a tunnel, in the order of its deviation specs
+//@ func (t Tunnel) GetSignalIDs
+//@ ensures len(result) == len(t.SignalDeviations) && (forall j :: 0 <= j && j < len(result) ==> result[j] == t.SignalDeviations[j].SignalID)
+//@ loop 0: invariant len(signalIDs) == #i && (forall j :: 0 <= j && j < #i ==> signalIDs[j] == t.SignalDeviations[j].SignalID)
